@@ -41,28 +41,9 @@ def _prog():
 
 def _slot_guarantees_comment() -> bool:
     """CheckCommentLineLen runs only after IsComment matched, and IsComment.run returns True only
-    under check_token(i, [MULT_COMMENT, COMMENT]) is True."""
-    import ast
-    from .facts import registry_model
-    from .model import walk_fn, text
-    prog = _prog()
-    rm = registry_model(prog)
-    if set(rm.live_slots("CheckCommentLineLen")) != {"IsComment"}:
-        return False
-    run = prog.method("IsComment", "run")
-    for n in walk_fn(run.node):
-        if isinstance(n, ast.Return) and isinstance(n.value, ast.Tuple) and text(n.value.elts[0]) == "True":
-            p = n
-            ok = False
-            while p is not None and p is not run.node:
-                from .model import parent
-                q = parent(p)
-                if isinstance(q, ast.If) and any(p is s for s in q.body) and "COMMENT" in text(q.test) and "is True" in text(q.test):
-                    ok = True
-                p = q
-            if not ok:
-                return False
-    return True
+    under check_token(i, [MULT_COMMENT, COMMENT]) is True (decided on the CFG: rules/c05.validate_comment_slot)."""
+    from .rules.c05 import validate_comment_slot
+    return validate_comment_slot(_prog())
 
 
 def _skip_signature(fn, upto_line=None):
@@ -99,33 +80,13 @@ def _same_navigation(check_cls: str, n_skips: int) -> bool:
 
 
 def _define_raises_unless_rparen() -> bool:
-    import ast
-    from .model import walk_fn, text
-    prog = _prog()
-    fn = prog.method("IsPreprocessorStatement", "check_define")
-    if fn is None:
-        return False
-    for n in walk_fn(fn.node):
-        if isinstance(n, ast.If) and "RPARENTHESIS" in text(n.test) and text(n.test).startswith("not ") \
-                and n.body and isinstance(n.body[0], ast.Raise) and "CParsingError" in text(n.body[0]):
-            return _same_navigation("CheckPreprocessorDefine", 3)
-    return False
+    from .rules.c05 import validate_define_rparen
+    return validate_define_rparen(_prog()) and _same_navigation("CheckPreprocessorDefine", 3)
 
 
 def _include_raises_unless_more_than() -> bool:
-    import ast
-    from .model import walk_fn, text
-    prog = _prog()
-    cp = prog.method("IsPreprocessorStatement", "_check_path")
-    ci = prog.method("IsPreprocessorStatement", "check_include")
-    if cp is None or ci is None:
-        return False
-    a = any(isinstance(n, ast.If) and text(n.test) == "not context.check_token(index, 'MORE_THAN')"
-            and n.body and isinstance(n.body[0], ast.Return) and text(n.body[0].value).startswith("(False")
-            for n in walk_fn(cp.node))
-    b = any(isinstance(n, ast.If) and text(n.test).startswith("not ") and n.body and isinstance(n.body[0], ast.Raise)
-            for n in walk_fn(ci.node))
-    return a and b and _same_navigation("CheckPreprocessorInclude", 3)
+    from .rules.c05 import validate_include_more_than
+    return validate_include_more_than(_prog()) and _same_navigation("CheckPreprocessorInclude", 3)
 
 
 add("C05", "R-5.4", "rules/check_comment_line_len.py::CheckCommentLineLen.run::while[kinds=COMMENT,MULT_COMMENT]",
@@ -141,66 +102,87 @@ add("C05", "R-5.4", "rules/check_preprocessor_include.py::CheckPreprocessorInclu
 
 # --------------------------------------------------------------------------- C08 R-8.1 (dead emission sites)
 def _check_prefix_dead() -> bool:
-    """new_error("") in CheckOperatorsSpacing.check_prefix sits under check_token(pos, [TAB, SPACE]); its only
-    caller passes the index it has just tested against p_operators, which contains neither TAB nor SPACE."""
+    """new_error("") in CheckOperatorsSpacing.check_prefix executes only if check_token(pos, K1) is true for K1 = {TAB, SPACE};
+    at its only call site the same index has just been tested `check_token(i, K2) is True` with K2 (p_operators) disjoint
+    from K1.  Decided on the CFGs with symbolic indices (sa/deadsite.py), not on source text."""
     import ast
     from .calls import callgraph
-    from .fold import fold_name
-    from .model import walk_fn, text, ancestors
+    from .deadsite import Sym, emission_nodes, facts_at
     prog = _prog()
     fn = prog.method("CheckOperatorsSpacing", "check_prefix")
     if fn is None:
         return False
-    em = [n for n in walk_fn(fn.node) if isinstance(n, ast.Call) and text(n.func) == "context.new_error"
-          and n.args and isinstance(n.args[0], ast.Constant) and n.args[0].value == ""]
+    em = emission_nodes(fn, "")
     if len(em) != 1:
         return False
-    guard = [a for a in ancestors(em[0]) if isinstance(a, ast.If)]
-    if not guard or "context.check_token(pos, ['TAB', 'SPACE'])" not in text(guard[0].test):
+    need = [f for f in facts_at(prog, fn, em[0]) if f.kind == "check" and f.outcomes == frozenset({True}) and f.subject[0] == "param"]
+    if not need:
         return False
-    sites = callgraph(prog).sites.get(fn.key, [])
+    sites = [c for c in callgraph(prog).sites.get(fn.key, []) if isinstance(c.node, ast.Call)]
     if len(sites) != 1:
         return False
-    call = sites[0].node
-    arg = text(call.args[1]) if len(call.args) > 1 else None
-    g2 = [a for a in ancestors(call) if isinstance(a, ast.If)]
-    if not g2 or text(g2[0].test) != f"context.check_token({arg}, p_operators) is True":
-        return False
-    pops = fold_name("p_operators", fn.mod)
-    return not ({"TAB", "SPACE"} & set(pops))
+    call, caller = sites[0].node, sites[0].caller
+    params = [p for p in fn.params if p not in ("self", "cls")]
+    sym = Sym(prog, caller)
+    cfacts = facts_at(prog, caller, call)
+    for f in need:
+        pname = f.subject[1]
+        if pname not in params or params.index(pname) >= len(call.args):
+            continue
+        arg = call.args[params.index(pname)]
+        aval, _ = sym.value(arg, sym.node_of(call))
+        for g in cfacts:
+            if g.kind == "check" and g.subject == aval and g.outcomes == frozenset({True}) and not (g.items & f.items):
+                return True
+    return False
 
 
 def _expected_brace_dead() -> bool:
-    """CheckBrace runs only after IsBlockStart / IsBlockEnd, both of which matched LBRACE / RBRACE at skip_ws(0)."""
+    """CheckBrace.run emits EXPECTED_BRACE only if check_token(S, K') is False; every live slot of CheckBrace is a primary
+    whose run can report a match only after check_token(S, K) was True or None for the same symbolic position S
+    (skip_ws(0, nl=False, comment=False)) and a K included in K'.  Decided on the CFGs (sa/deadsite.py)."""
+    from .deadsite import contradicts_guarantee, emission_nodes, facts_at, true_return_facts
     from .facts import registry_model
-    from .model import text
     prog = _prog()
     rm = registry_model(prog)
-    if not set(rm.live_slots("CheckBrace")) <= {"IsBlockStart", "IsBlockEnd"}:
-        return False
-    for cname, kind in (("IsBlockStart", "LBRACE"), ("IsBlockEnd", "RBRACE")):
-        run = prog.method(cname, "run")
-        body = [s for s in run.node.body if not (hasattr(s, "value") and isinstance(getattr(s, "value", None), __import__("ast").Constant))]
-        if len(body) < 2:
-            return False
-        if not text(body[0]).startswith("i = context.skip_ws(0"):
-            return False
-        if text(body[1]).split(":")[0] != f"if context.check_token(i, '{kind}') is False":
-            return False
     cb = prog.method("CheckBrace", "run")
-    src = text(cb.node, 2000)
-    return "i = context.skip_ws(i, nl=False)" in src and "if context.check_token(i, ['RBRACE', 'LBRACE']) is False:" in src
+    slots = rm.live_slots("CheckBrace")
+    if cb is None or not slots or any(s not in rm.primary_names for s in slots):
+        return False
+    em = emission_nodes(cb, "EXPECTED_BRACE")
+    if not em:
+        return False
+    for e in em:
+        site = facts_at(prog, cb, e)
+        for s in slots:
+            prim = prog.method(s, "run")
+            if prim is None or not contradicts_guarantee(site, true_return_facts(prog, prim)):
+                return False
+    return True
 
 
 def _forbidden_in_header_dead() -> bool:
-    """The guard `history[-1] not in allowed_in_header` is false in every live slot of CheckInHeader."""
+    """CheckInHeader.run emits FORBIDDEN_IN_HEADER only if `context.history[-1] in <collection>` is false, and every live
+    slot of CheckInHeader (= the primary that has just been appended to the history) is in that collection."""
+    from .deadsite import emission_nodes, facts_at
     from .facts import registry_model
-    from .fold import fold_name
     prog = _prog()
     rm = registry_model(prog)
-    allowed = set(fold_name("allowed_in_header", prog.mod("rules/check_in_header.py")))
+    fn = prog.method("CheckInHeader", "run")
     slots = set(rm.live_slots("CheckInHeader"))
-    return bool(slots) and slots <= allowed
+    if fn is None or not slots:
+        return False
+    em = emission_nodes(fn, "FORBIDDEN_IN_HEADER")
+    if not em:
+        return False
+    for e in em:
+        ok = False
+        for f in facts_at(prog, fn, e):
+            if f.kind == "member" and f.outcomes == frozenset({False}) and "history[-1]" in str(f.subject[-1]) and slots <= set(f.items):
+                ok = True
+        if not ok:
+            return False
+    return True
 
 
 add("C08", "R-8.1", "rules/check_operators_spacing.py::CheckOperatorsSpacing.check_prefix::emit[]",
@@ -217,33 +199,10 @@ def _var_declaration_ids_filled() -> bool:
     """IsVarDeclaration.var_declaration: `ids[-1]` follows `if identifier is False or ...: return`, and every
     `identifier = True` sits in a suite that also appends to ids (directly, or through the backward scan of the
     parenthesis group that parenthesis_contain classified as function / pointer / var, all of which it only
-    returns after meeting an IDENTIFIER inside the group)."""
-    import ast
-    from .model import walk_fn, text, parent
-    prog = _prog()
-    fn = prog.method("IsVarDeclaration", "var_declaration")
-    if fn is None:
-        return False
-    guard = [n for n in walk_fn(fn.node) if isinstance(n, ast.If) and text(n.test).startswith("identifier is False")
-             and n.body and isinstance(n.body[-1], ast.Return)]
-    if not guard:
-        return False
-    sets = [n for n in walk_fn(fn.node) if isinstance(n, ast.Assign) and text(n.targets[0]) == "identifier" and text(n.value) == "True"]
-    if not sets:
-        return False
-    for s in sets:
-        blk = parent(s)
-        body = [b for f in ("body", "orelse") for b in (getattr(blk, f, []) or []) if any(x is s for x in (getattr(blk, f, []) or []))]
-        suite = getattr(blk, "body", []) if any(x is s for x in getattr(blk, "body", [])) else getattr(blk, "orelse", [])
-        if not any("ids.append(" in text(x, 4000) for x in suite):
-            return False
-    # the default of the parameter is False and no call site passes it
-    from .calls import callgraph
-    for c in callgraph(prog).sites.get(fn.key, []):
-        if isinstance(c.node, ast.Call) and (len(c.node.args) > 2 or any(k.arg == "identifier" for k in c.node.keywords)):
-            return False
-    d = fn.node.args.defaults
-    return bool(d) and text(d[-1]) == "False"
+    returns after meeting an IDENTIFIER inside the group).  Decided by rules/c05.validate_var_declaration_ids
+    (the names of the list and of the flag are discovered, not spelled)."""
+    from .rules.c05 import validate_var_declaration_ids
+    return validate_var_declaration_ids(_prog())
 
 
 add("C05", "R-5.9", "rules/is_var_declaration.py::IsVarDeclaration.var_declaration::index[ids[-1]]",
